@@ -17,11 +17,11 @@ Definition probe_prefix (f : nat) : list label :=
   | 3 => [CDial; Stall]
   | 4 => [CDial; SAccept; CDialOk; Stall]
   | 5 => [CDial; SAccept; CDialOk; SRecvWs; Stall]
-  | 6 => [CDial; SAccept; CDialOk; SRecvWs; CRecvWs; PostDeliver 0; PostOk; PostDeliver 0; PostOk; CSwap; Stall]
+  | 6 => [CDial; SAccept; CDialOk; SRecvWs; SNoopGo; GetWake; RespDeliver; CRecvWs; PostDeliver 0; PostOk; PostDeliver 0; PostOk; CSwap; Stall]
   | 7 => [CDial; SAccept; Cut]
   | 8 => [CDial; SAccept; CDialOk; Cut]
   | 9 => [CDial; SAccept; CDialOk; SRecvWs; Cut]
-  | _ => [CDial; SAccept; CDialOk; SRecvWs; CRecvWs; PostDeliver 0; PostOk; PostDeliver 0; PostOk; CSwap; Cut]
+  | _ => [CDial; SAccept; CDialOk; SRecvWs; SNoopGo; GetWake; RespDeliver; CRecvWs; PostDeliver 0; PostOk; PostDeliver 0; PostOk; CSwap; Cut]
   end.
 
 Fixpoint drain_q (fuel : nat) (st : state) : state :=
@@ -77,7 +77,9 @@ Definition oracle (c : ucase) : bool :=
   (* upgraded, or (failed attempt) still on the original transport *)
   && (match f with 0 => cws && sws | _ => negb cws && negb sws end)
   (* per-transport order, per sender goroutine *)
-  && (let '(a, b) := stream_split sburst crecv in two_runs a && two_runs b)
+  (* (repaired client: long-polling has stopped before the swap, so one sender's messages arrive
+     in order across the swap, also server -> client) *)
+  && (let '(a, b) := stream_split sburst crecv in increasing a && increasing b)
   && (let '(a, b) := stream_split cburst srecv in increasing a && increasing b).
 
 (** Correspondence: the observed outcome is the one the model predicts for this fault (the
